@@ -355,6 +355,20 @@ fn base_features() -> Vec<(&'static str, Vec<Item>)> {
         ),
         ("let-group", vec![Item::Let { binds: vec![("f".into(), int(9)), ("g".into(), s("l"))], body: vec![def("l1", vec![a_of(vec![int(1)])], None), def("l2", vec![a_of(vec![int(2)])], None)], braces: true }]),
         (
+            // a let list consumed out of order, and the same nested
+            "let-crossing",
+            vec![
+                c("HA", vec![], vec![], Some(vec![f(Ty::Int, "alpha", int(0))])),
+                c("HB", vec![], vec![], Some(vec![f(Ty::Str, "beta", s("b"))])),
+                Item::Let { binds: vec![("alpha".into(), int(1)), ("beta".into(), s("two"))], body: vec![def("lc1", vec![CRef::plain("HB")], None), def("lc2", vec![CRef::plain("HA")], None)], braces: true },
+                Item::Let {
+                    binds: vec![("alpha".into(), int(1))],
+                    body: vec![Item::Let { binds: vec![("beta".into(), s("two"))], body: vec![def("lc3", vec![CRef::plain("HB")], None)], braces: false }, def("lc4", vec![CRef::plain("HA")], None)],
+                    braces: true,
+                },
+            ],
+        ),
+        (
             "class-values",
             vec![def(
                 "cv",
@@ -480,7 +494,8 @@ fn base_features() -> Vec<(&'static str, Vec<Item>)> {
     ]
 }
 
-/// Valid programs: library + one or two feature groups (optionally inside a block wrapper), two layouts.
+/// Valid programs: library + one or two feature groups (optionally inside a block wrapper), in four layouts
+/// (one file; the library included; a diamond; a chain root -> mid -> library).
 pub fn valid_programs(pairs: bool, mut f: impl FnMut(&Program, &str) -> bool) {
     let feats = features();
     let mut combos: Vec<Vec<usize>> = (0..feats.len()).map(|i| vec![i]).collect();
@@ -503,8 +518,15 @@ pub fn valid_programs(pairs: bool, mut f: impl FnMut(&Program, &str) -> bool) {
         let wrappers: Vec<usize> = if wrappable { vec![0, 1, 5, 6] } else { vec![0] };
         for w in wrappers {
             let wrapped = wrap_block(w, body.clone());
-            for layout in 0..3 {
-                let p = if layout == 0 {
+            // (the chain only for single groups without wrapper: it varies the include depth of the library, nothing else)
+            for layout in 0..if combo.len() == 1 && w == 0 { 4 } else { 3 } {
+                let p = if layout == 3 {
+                    // a chain: the library is two includes away from the root
+                    let mut root = vec![Item::Include("mid.td".into())];
+                    root.extend(wrapped.clone());
+                    let mid = vec![Item::Include("inc.td".into()), def("mid0", vec![a_of(vec![int(9)])], None)];
+                    Program { files: vec![("a.td".into(), root), ("mid.td".into(), mid), ("inc.td".into(), library())] }
+                } else if layout == 0 {
                     let mut all = library();
                     all.extend(wrapped.clone());
                     Program { files: vec![("a.td".into(), all)] }
